@@ -125,6 +125,7 @@ def check(program: Program, run: Run) -> None:
         "graphs depends on eq/hash coherence, discharged by C17 and re-evaluated here. Behaviour on generated call sequences is not computed.")
     run.rule("R1 guard table: raise of the documented exception, reading the guarded attributes, dominating the protected write")
     run.rule("R2 join availability = FROM list + update table + CTEs (do_join) | items of existing joins | item being joined; criterion tables from all fields; JoinException iff difference non-empty")
+    run.rule("R6 a validation never consults a one-shot iterator more than once (in a loop): the second field would be judged against an empty set of available tables")
     run.rule("R5 (inherited from C01) the state a guard reads is not writable through another object: a guard over an attribute that a sibling/receiver can mutate in place fires for the wrong object")
     run.rule("R4 no attribute is read from a value whose declared class has a value-manufacturing __getattr__ unless that class defines the attribute (else a valid operand of another subclass yields a Field and a TypeError instead of SQL or a library exception)")
     run.rule("R3 set arithmetic exactness inherits C17 (hash/eq coherence of Table, Field collection)")
@@ -294,6 +295,15 @@ def check(program: Program, run: Run) -> None:
 
     # ---- R4
     _manufactured_reads(program, run)
+
+    # ---- R6
+    from ..families import one_shot_reuse_sites
+    guard_funcs = {qual for qual, *_ in G}
+    for f6, var, desc, node, why in one_shot_reuse_sites(program):
+        if f6.qualname in guard_funcs or any(isinstance(x, ast.Raise) for x in ast.walk(f6.node)):
+            run.finding(f"C14/iterator-reused:{f6.qualname}:{var}", f"{f6.qualname} binds `{var}` to {desc}, which {why}; the rejection it feeds fires for valid input (or not at all) from the second element on",
+                        where=f6.loc(node), rule="R6")
+    run.ob("C14/R6 validations consult re-iterable collections", "functions that raise", True, nontrivial=False)
 
     # ---- R5: a guard decides on the object's own state; if C01 shows that state is shared with (and mutated through)
     # another object, the invalid construction is accepted (or the valid one rejected) depending on what a sibling did
